@@ -9,7 +9,8 @@ CHECK = dict(
     rule=("histories of 40 write/read/delete/export-import operations on the symbolic engine's memory: "
           "cells of 8..64 bits at offsets {-9..9} u {2^n-8..2^n-1} of one integer base and two symbolic "
           "bases, pointer widths 16/32/64; every read (and a full sweep at the end) is compared byte-wise "
-          "with the shadow model under 3 valuations; distinct = distinct operation-kind 4-grams with "
+          "with the shadow model under 3 valuations; 5% of the steps start a directed history (same value stored "
+          "twice shifted by 1/2/4 bytes, bytes at the seam deleted, export/import, read back); distinct = distinct operation-kind 4-grams with "
           "overlap class"),
     assumptions=["the two symbolic bases get concrete values 2^20 apart (documented non-aliasing assumption)",
                  "stored expressions denote values over the initial state"],
@@ -120,14 +121,33 @@ def run_shard(params, rec):
             return True
 
         nops = 40
+        forced = []
         for step in range(nops):
             k = rng.random()
             bi = rng.choice([0, 1, 1, 2])
             off = rng.choice(offsets)
             size = rng.choice([8, 16, 32, 64])
+            fval = None
+            if forced:
+                k, bi, off, size, fval = forced.pop(0)
+            elif rng.random() < 0.05:
+                # directed history: the same value stored twice, shifted by a few bytes, then some
+                # bytes around the seam deleted (leaves a hole between cells that hold consecutive
+                # bytes of the same value), state exported/imported, the region read back
+                size = rng.choice([16, 32, 64])
+                cands = [v for v in vals if v.size == size]
+                v = rng.choice(cands)
+                kb = rng.choice([x for x in (1, 2, 4) if x < size // 8])
+                off = rng.randrange(-9, 4)
+                dsz = rng.choice([x for x in (1, 2, 4) if x <= kb])
+                doff = off + kb + rng.choice([0, 0, -dsz, kb - dsz])
+                forced = [(0.0, bi, off + kb, size, v), (0.85, bi, doff, dsz * 8, None), (0.95, 0, 0, 8, None),
+                          (0.5, bi, off, size, None), (0.5, bi, off + kb, size, None)]
+                k, fval = 0.0, v
+                rec.count("directed_shifted_rewrite")
             nb = size // 8
             if k < 0.45:
-                val = value_expr(size)
+                val = value_expr(size) if fval is None else fval
                 ptr = ptr_of(bi, off)
                 partial = any(((bi, (off + i) & mask) in present) for i in range(nb)) and \
                     not all(((bi, (off + i) & mask) in present) for i in range(nb))
